@@ -13,6 +13,9 @@ import (
 	"sort"
 	"strings"
 
+	"github.com/freeconf/yang/meta"
+	"github.com/freeconf/yang/node"
+	"github.com/freeconf/yang/parser"
 	"github.com/freeconf/yang/val"
 
 	"yvh/core"
@@ -332,6 +335,9 @@ func c10Observe(v val.Value, err error, panicked bool) (string, string) {
 	if v == nil {
 		return "ONil", "nil,nil"
 	}
+	if e, isEnum := v.(val.Enum); isEnum {
+		return emit.App("OEnum", emit.Z(int64(e.Id)), emit.Str(e.Label)), fmt.Sprintf("Enum{%d,%q}", e.Id, e.Label)
+	}
 	name, isList, ok := c10FmtName(v.Format())
 	if !ok {
 		return c10Garbage, fmt.Sprintf("value of unexpected format %v", v.Format())
@@ -404,6 +410,13 @@ func c10Cell(t c10Target, s c10Src) (string, string) {
 	return o, d
 }
 
+func c10MayKey(b bool) string {
+	if b {
+		return "cell:oracle-permitted"
+	}
+	return "cell:modelled"
+}
+
 func c10Row(ctx *core.Ctx, s c10Src, idx int) {
 	ts := c10RowTargets()
 	if ctx.Explode >= 0 {
@@ -422,6 +435,7 @@ func c10Row(ctx *core.Ctx, s c10Src, idx int) {
 	for i, t := range ts {
 		o, d := c10Cell(t, s)
 		obs[i] = o
+		ctx.Count(c10MayKey(c10May(t, s)))
 		cls := "err"
 		if d != "error" {
 			cls = "ok"
@@ -544,13 +558,13 @@ func c10InRange(k string, z *big.Int) bool {
 
 // C10 is the harness entry point
 func C10(ctx *core.Ctx) error {
-	ctx.Imports = "Val.Model Conv.Model Conv.Spec Check.C10Check"
+	ctx.Imports = "Val.Model Conv.Model Conv.Spec Conv.Front Check.C10Check"
 	ctx.ShardMax = 150000 // more, smaller shards: they are classified in parallel
 	ctx.Rule = "row = one Go source value converted by the real val.Conv to each of the 22 modelled targets (8 integer widths, decimal64, boolean, string and their list forms); sources: every integer kind (10 kinds, plain and defined types) at the boundary set {type min/max, +-2 around 0, 2^7, 2^8, 2^15, 2^16, 2^31, 2^32, 2^53, 2^63, 2^64 and +-1, +-2} cut to the kind's range plus random values, float64/float32 incl. -0, +-0.5 around each boundary, NaN, +-Inf, the decimal/hex/underscore/sign/space spellings of every boundary integer, booleans, nil, a struct; slices: every typed slice, []interface{} mixes, empty slices; oneof = val.ConvOneOf over random format lists. Observation = error | nil | Value() read back by reflection (exact) + String(). non-trivial = source is not nil/struct; distinct by SHA-256 of the term"
 	r := gen.New(ctx.Seed)
 	extra := ctx.Scale(12, 300)
 	if ctx.Tier == "search" {
-		extra = 2000
+		extra = 60
 	}
 	idx := 0
 	var pool []c10Src // for slices of mixed content and ConvOneOf
@@ -733,6 +747,222 @@ func C10(ctx *core.Ctx) error {
 				map[string]interface{}{"kind": "oneof", "call": fmt.Sprintf("val.ConvOneOf([%s], %s)", strings.Join(names, " "), s.desc), "observed": d, "picked": picked}, true)
 			ctx.Count(fmt.Sprintf("oneof:picked%d", picked))
 		}
+	}
+	if ctx.Explode < 0 {
+		if err := c10Front(ctx, r.Fork(6), pool, strs); err != nil {
+			return err
+		}
+	}
+	return nil
+}
+
+// ---- node.NewValue / NewValuesByString ---------------------------------------------------------
+
+const c10Yang = `module c10 { namespace "urn:c10"; prefix "c"; revision 0;
+ leaf i8 { type int8; } leaf i16 { type int16; } leaf i32 { type int32; } leaf i64 { type int64; }
+ leaf u8 { type uint8; } leaf u16 { type uint16; } leaf u32 { type uint32; } leaf u64 { type uint64; }
+ leaf dec { type decimal64 { fraction-digits 2; } } leaf b { type boolean; } leaf s { type string; }
+ leaf-list li8 { type int8; } leaf-list li16 { type int16; } leaf-list li32 { type int32; } leaf-list li64 { type int64; }
+ leaf-list lu8 { type uint8; } leaf-list lu16 { type uint16; } leaf-list lu32 { type uint32; } leaf-list lu64 { type uint64; }
+ leaf-list ldec { type decimal64 { fraction-digits 2; } } leaf-list lb { type boolean; } leaf-list ls { type string; }
+ leaf e { type enumeration { enum a; enum b { value 5; } enum "7"; enum neg { value 3; } enum "4"; enum "1099511627776"; enum big { value 2147483647; } } }
+ leaf u1 { type union { type int8; type string; } }
+ leaf u2 { type union { type uint8; type int32; type boolean; } }
+ leaf u3 { type union { type boolean; type decimal64 { fraction-digits 1; } type string; } }
+ leaf u4 { type union { type uint64; type int64; } }
+ leaf u5 { type union { type int16; type uint16; } }
+ leaf r16 { type leafref { path "../i16"; } }
+ leaf ru2 { type leafref { path "../u2"; } }
+ leaf rr { type leafref { path "../r16"; } }
+}`
+
+type c10Leaf struct {
+	name    string
+	leaf    meta.Leafable
+	term    string      // ntype
+	targets []c10Target // the plain targets involved (for the oracle permission)
+	isEnum  bool
+}
+
+func c10TypeTerm(t *meta.Type, depth int) (string, []c10Target, bool, error) {
+	if depth > 5 {
+		return "", nil, false, fmt.Errorf("leafref chain too deep")
+	}
+	switch t.Format() {
+	case val.FmtLeafRef, val.FmtLeafRefList:
+		inner, ts, e, err := c10TypeTerm(t.Resolve(), depth+1)
+		return emit.App("NLeafRef", inner), ts, e, err
+	case val.FmtUnion:
+		var terms []string
+		var ts []c10Target
+		for _, f := range t.UnionFormats() {
+			name, isList, ok := c10FmtName(f)
+			if !ok {
+				return "", nil, false, fmt.Errorf("union member %v is not modelled", f)
+			}
+			tg := c10Target{f, name, isList}
+			terms = append(terms, tg.term())
+			ts = append(ts, tg)
+		}
+		return emit.App("NUnion", emit.List(terms)), ts, false, nil
+	case val.FmtEnum:
+		var es []string
+		for _, e := range t.Enum() {
+			es = append(es, emit.Pair(emit.Z(int64(e.Id)), emit.Str(e.Label)))
+		}
+		return emit.App("NEnum", emit.List(es)), nil, true, nil
+	}
+	name, isList, ok := c10FmtName(t.Format())
+	if !ok {
+		return "", nil, false, fmt.Errorf("format %v is not modelled", t.Format())
+	}
+	tg := c10Target{t.Format(), name, isList}
+	return emit.App("NPlain", tg.term()), []c10Target{tg}, false, nil
+}
+
+func c10LeafMay(l c10Leaf, s c10Src) bool {
+	if l.isEnum {
+		if s.isSlice {
+			return true
+		}
+		for _, x := range s.elems {
+			if x.strOracle {
+				return true
+			}
+		}
+		return false
+	}
+	for _, t := range l.targets {
+		if c10May(t, s) {
+			return true
+		}
+	}
+	return false
+}
+
+func c10NewValue(t *meta.Type, x interface{}) (v val.Value, err error, panicked bool) {
+	defer func() {
+		if r := recover(); r != nil {
+			panicked = true
+		}
+	}()
+	v, err = node.NewValue(t, x)
+	return
+}
+
+func c10Front(ctx *core.Ctx, r *gen.Rng, pool []c10Src, strs []string) error {
+	m, err := parser.LoadModuleFromString(nil, c10Yang)
+	if err != nil {
+		return fmt.Errorf("c10 yang: %v", err)
+	}
+	var leaves, plain []c10Leaf
+	var enumLeaf c10Leaf
+	for _, d := range m.DataDefinitions() {
+		lf, ok := d.(meta.Leafable)
+		if !ok {
+			continue
+		}
+		term, ts, isEnum, err := c10TypeTerm(lf.Type(), 0)
+		if err != nil {
+			return fmt.Errorf("leaf %s: %v", d.Ident(), err)
+		}
+		l := c10Leaf{d.Ident(), lf, term, ts, isEnum}
+		leaves = append(leaves, l)
+		if isEnum {
+			enumLeaf = l
+		} else if !strings.HasPrefix(term, "(NUnion") {
+			plain = append(plain, l)
+		}
+	}
+	if enumLeaf.leaf == nil || len(leaves) < 30 {
+		return fmt.Errorf("c10 yang: expected leaves missing (%d)", len(leaves))
+	}
+	one := func(l c10Leaf, s c10Src) {
+		v, err, p := c10NewValue(l.leaf.Type(), s.goVal)
+		o, d := c10Observe(v, err, p)
+		if c10LeafMay(l, s) {
+			o = emit.App("OMay", o)
+		}
+		ctx.Add(emit.App("CNew", l.term, s.term, o),
+			map[string]interface{}{"kind": "newvalue", "call": fmt.Sprintf("node.NewValue(type of leaf %s, %s)", l.name, s.desc), "observed": d}, true)
+		ctx.Count("newvalue:" + l.name)
+	}
+	// the enumeration against ids, labels, numerals, fractions
+	big40 := new(big.Int).Lsh(big.NewInt(1), 40)
+	enumSrc := []c10Scalar{c10Int("IInt", false, big.NewInt(0)), c10Int("IInt", false, big.NewInt(5)), c10Int("I8", false, big.NewInt(6)),
+		c10Int("I64", false, big.NewInt(-3)), c10Int("U8", false, big.NewInt(7)), c10Int("IInt", false, big.NewInt(2147483647)),
+		c10Int("IInt", false, big.NewInt(1)), c10Int("I64", false, big.NewInt(2147483648)), c10Int("U64", false, big.NewInt(4294967296)),
+		c10Int("I64", false, big40), c10Int("I64", false, big.NewInt(-2147483649)), c10Int("U32", true, big.NewInt(5)),
+		c10Str(false, "a"), c10Str(false, "b"), c10Str(false, "7"), c10Str(false, "4"), c10Str(false, "neg"), c10Str(false, "big"), c10Str(false, "5"),
+		c10Str(false, "-3"), c10Str(false, "zz"), c10Str(false, ""), c10Str(false, "A"), c10Str(false, "1099511627776"), c10Str(false, "6"), c10Str(false, "+5"),
+		c10Str(false, "05"), c10Str(false, " a"), c10Str(true, "a"), c10Str(true, "5"),
+		c10F64(false, 5), c10F64(false, 4.3), c10F64(false, 3.7), c10F64(false, -3), c10F64(false, 0.2), c10F64(false, 6.5), c10F64(false, 1099511627776),
+		c10F64(false, math.NaN()), c10F32(5), c10Bool(true), c10Nil(), c10Other(c10Strc{1})}
+	for _, x := range enumSrc {
+		one(enumLeaf, c10ScalarSrc(x))
+	}
+	n := ctx.Scale(700, 12000)
+	if ctx.Tier == "search" {
+		n = 3000
+	}
+	for i := 0; i < n; i++ {
+		one(gen.Pick(r, leaves), gen.Pick(r, pool))
+	}
+	// NewValuesByString over plain (and leafref) leaves
+	goodStrs := []string{"0", "1", "-1", "127", "128", "255", "256", "-128", "-129", "65535", "65536", "true", "false", "1.5", "0.25", "abc", "",
+		"2147483647", "2147483648", "4294967295", "4294967296", "9223372036854775807", "9223372036854775808", "18446744073709551615", "18446744073709551616", "+1", " 1", "yes", "no"}
+	nm := ctx.Scale(150, 3000)
+	for i := 0; i < nm; i++ {
+		k := 1 + r.Intn(4)
+		ls := make([]meta.Leafable, k)
+		tys := make([]string, k)
+		names := make([]string, k)
+		may := false
+		for j := 0; j < k; j++ {
+			l := gen.Pick(r, plain)
+			ls[j], tys[j], names[j] = l.leaf, l.term, l.name
+			if l.targets[0].name == "FDecimal64" {
+				may = true
+			}
+		}
+		ns := k - r.Intn(2)*r.Intn(2) // sometimes one string fewer than leaves
+		ss := make([]string, ns)
+		sterms := make([]string, ns)
+		for j := range ss {
+			if r.Chance(3, 4) {
+				ss[j] = gen.Pick(r, goodStrs)
+			} else {
+				ss[j] = gen.Pick(r, strs)
+			}
+			sterms[j] = emit.Str(ss[j])
+		}
+		var vals []val.Value
+		var err error
+		panicked := false
+		func() {
+			defer func() {
+				if recover() != nil {
+					panicked = true
+				}
+			}()
+			vals, err = node.NewValuesByString(ls, ss...)
+		}()
+		os := "None"
+		d := "error"
+		if panicked {
+			os, d = emit.Some(emit.List([]string{c10Garbage})), "PANIC"
+		} else if err == nil {
+			var items, ds []string
+			for j := 0; j < ns && j < len(vals); j++ {
+				o, dd := c10Observe(vals[j], nil, false)
+				items = append(items, o)
+				ds = append(ds, dd)
+			}
+			os, d = emit.Some(emit.List(items)), strings.Join(ds, "; ")
+		}
+		ctx.Add(emit.App("CNewStrs", emit.List(tys), emit.List(sterms), os, emit.Bool(may)),
+			map[string]interface{}{"kind": "newvaluesbystring", "leaves": names, "strings": ss, "observed": d}, true)
+		ctx.Count(fmt.Sprintf("bystring:len%d", k))
 	}
 	return nil
 }
